@@ -113,9 +113,9 @@ impl SwiftField for Field50A {
         // Check if first line is party identifier
         if lines[0].starts_with('/') {
             let identifier = &lines[0][1..];
-            if identifier.len() > 34 {
+            if identifier.is_empty() || identifier.len() > 34 {
                 return Err(ParseError::InvalidFormat {
-                    message: "Field 50A party identifier exceeds 34 characters".to_string(),
+                    message: "Field 50A party identifier must be 1 to 34 characters".to_string(),
                 });
             }
             parse_swift_chars(identifier, "Field 50A party identifier")?;
@@ -145,10 +145,10 @@ impl SwiftField for Field50A {
             }
 
             let text = &line[2..];
-            if text.len() > 33 {
+            if text.is_empty() || text.len() > 33 {
                 return Err(ParseError::InvalidFormat {
                     message: format!(
-                        "Field 50A line {} text exceeds 33 characters",
+                        "Field 50A line {} text must be 1 to 33 characters",
                         i - start_index + 1
                     ),
                 });
